@@ -9,6 +9,8 @@ package keystore
 import (
 	"fmt"
 
+	"massnet.org/mass/config"
+	"massnet.org/mass/poc/wallet/keystore/hdkeychain"
 	"verif/sim"
 )
 
@@ -87,12 +89,68 @@ func zzFreshPass(n int) []byte {
 	return out
 }
 
+// seeds 0..4 are ordinary; 5..7 are the unusual inputs of HD derivation: a master key, a
+// purpose-level key and an account-level key whose leading byte is zero (1 seed in 256 each).
+var zzSpecialSeeds [][]byte
+
+func zzFindSpecialSeeds() {
+	if zzSpecialSeeds != nil {
+		return
+	}
+	zzSpecialSeeds = make([][]byte, 3)
+	found := 0
+	scope := Net2KeyScope[config.ChainParams.HDCoinType]
+	for i := uint64(1000); found < 3 && i < 400000; i++ {
+		seed := sim.DetBytes("seed", i, 32)
+		root, err := hdkeychain.NewMaster(seed, config.ChainParams)
+		if err != nil {
+			continue
+		}
+		lead := func(k *hdkeychain.ExtendedKey) bool {
+			b, err := k.PrivKey()
+			return err == nil && (len(b) < 32 || b[0] == 0)
+		}
+		purpose, err := root.Child(scope.Purpose + hdkeychain.HardenedKeyStart)
+		if err != nil {
+			continue
+		}
+		coin, err := purpose.Child(scope.Coin + hdkeychain.HardenedKeyStart)
+		if err != nil {
+			continue
+		}
+		acct, err := coin.Child(0 + hdkeychain.HardenedKeyStart)
+		if err != nil {
+			continue
+		}
+		switch {
+		case zzSpecialSeeds[0] == nil && lead(root):
+			zzSpecialSeeds[0] = seed
+			found++
+		case zzSpecialSeeds[1] == nil && (lead(purpose) || lead(coin)):
+			zzSpecialSeeds[1] = seed
+			found++
+		case zzSpecialSeeds[2] == nil && lead(acct):
+			zzSpecialSeeds[2] = seed
+			found++
+		}
+	}
+	for i := range zzSpecialSeeds {
+		if zzSpecialSeeds[i] == nil {
+			zzSpecialSeeds[i] = sim.DetBytes("seed", uint64(50+i), 32)
+		}
+	}
+}
+
 func zzSeedBytes(i int) []byte {
 	if i == -2 {
 		return sim.DetBytes("seed", 999, 27)
 	}
 	if i < 0 {
 		return nil
+	}
+	if i >= 5 && i <= 7 {
+		zzFindSpecialSeeds()
+		return zzSpecialSeeds[i-5]
 	}
 	return sim.DetBytes("seed", uint64(i), 32)
 }
@@ -143,7 +201,7 @@ func zzGenProgram(t *sim.Tape, focus string, maxOps int) []zzOp {
 	var prog []zzOp
 	// most runs start by creating a keystore so that the interesting states are reached early
 	if t.Bool("prologue", 4, 5) {
-		prog = append(prog, zzOp{Kind: oNewKeystore, W: 0, Seed: t.Choose("seed", 4), Remark: t.Choose("remark", 6), P1: zzPassRef{pCurPriv, 0}})
+		prog = append(prog, zzOp{Kind: oNewKeystore, W: 0, Seed: []int{0, 1, 2, 3, 5, 6, 7, 0}[t.Choose("seed", 8)], Remark: t.Choose("remark", 6), P1: zzPassRef{pCurPriv, 0}})
 	}
 	for len(prog) < n {
 		op := zzOp{Kind: zzOpKind(t.Weighted("op", ww))}
@@ -152,7 +210,7 @@ func zzGenProgram(t *sim.Tape, focus string, maxOps int) []zzOp {
 		}
 		switch op.Kind {
 		case oNewKeystore:
-			op.Seed = t.Choose("seed", 6) - 1 // -1 random .. 4
+			op.Seed = []int{-1, 0, 1, 2, 3, 4, 5, 6, 7}[t.Choose("seed", 9)]
 			if t.Bool("seed.illegal", 1, 25) {
 				op.Seed = -2
 			}
@@ -162,6 +220,9 @@ func zzGenProgram(t *sim.Tape, focus string, maxOps int) []zzOp {
 			op.Slot = t.Weighted("slot", []int{8, 4, 2, 1})
 			op.Internal = t.Bool("internal", 1, 3)
 			op.N = t.Choose("naddr", 6)
+			if t.Bool("naddr.huge", 1, 20) {
+				op.N = -1 // more than an account can hold: must be refused
+			}
 		case oGenPub:
 		case oRemark:
 			op.Slot = t.Weighted("slot", []int{8, 4, 2, 1})
